@@ -481,7 +481,8 @@ def run(ctx):
               if e.get("witness", {}).get("ops") and e["witness"]["ops"][0] != "BASE"]
     evaluate(ctx, corpus, judge)
     evaluate(ctx, list(G.arity_histories()) + list(G.extra_histories()) + list(G.copy_histories())
-             + list(G.empty_flux_histories()) + list(G.degenerate_histories()), judge)
+             + list(G.empty_flux_histories()) + list(G.degenerate_histories()) + list(G.shadow_histories()),
+             judge)
     ctx.exhaustive = True
     thorough = ctx.tier == "thorough"
     cur = []
@@ -534,12 +535,16 @@ def replay(ctx, rp):
         evaluate(ctx, list(G.arity_histories()), Judge(ctx))
         return
     R, S = run_history({"ops": ops, "check_from": 0})
-    M = model_histories([{"ops": ops}])[0] if ctx.driver_ok else None
+    probe = any(o[0] == "call" for o in ops)  # a call of a method the Lean model has no op for: R vs S only
+    M = model_histories([{"ops": ops}])[0] if ctx.driver_ok and not probe else None
     for i, op in enumerate(ops):
         print(f"--- op {i}: {json.dumps(op)}")
+        if i >= len(R):
+            print("  (history ended: the content could not be read back after a probe call)")
+            break
         print("  R:", json.dumps(R[i]))
         print("  S:", json.dumps(S[i]))
-        if M is not None:
+        if M is not None and i < len(M):
             print("  M:", json.dumps(M[i]))
     c = {"ops": ops, "check_from": 0}
     Judge(ctx).report(c, check_history((c, M)))
